@@ -5,6 +5,9 @@ A case is a space separated token list (one token = one atomic step of one task,
 virtual loop to quiescence):
 
   vm=<view merge>                                   header, used by C10 only
+  churn=<n>                                         header (C19): before the events n short-lived outermost scopes are opened and
+                                                    left one after another, nothing keeps them alive; their identifiers and
+                                                    trace ids are collected (uniqueness over time, not only among live scopes)
   +<dt>                                             the clock advances by dt (integer seconds)
   <t>:o:<s|a>:<n|s|a>[:<name>:<logger>:<trace>]     task t: `with` / `async with` ctx.scope(...): construct + enter;
                                                     second field = completion callback none / sync / async
@@ -161,6 +164,10 @@ def parse_case(case: str):
         if tok.startswith("vm="):
             vm = tok[3:]
             if vm not in VIEW_MERGES:
+                return None
+            continue
+        if tok.startswith("churn="):
+            if _nat(tok[6:]) is None:
                 return None
             continue
         ev = parse_tok(tok)
@@ -836,6 +843,34 @@ class Puppet:
                     child.task = asyncio.get_running_loop().create_task(child.main())
 
 
+def churn_of(case: str) -> int:
+    for tok in case.split():
+        if tok.startswith("churn="):
+            return _nat(tok[6:]) or 0
+    return 0
+
+
+async def run_churn(n: int):
+    """n outermost scopes, opened and left one after another, no reference kept: ([identifiers], [trace ids])"""
+    from haiway import ctx
+
+    idents, traces = [], []
+
+    def done(m):
+        idents.append(str(m.identifier))
+        traces.append(str(m.trace_id))
+
+    import gc
+
+    for i in range(n):
+        with ctx.scope("churn", completion=done):
+            pass
+        await asyncio.sleep(0)          # the completion callback runs; nothing refers to the scope any more
+        if i % 40 == 39:
+            gc.collect()                # … and its memory is handed back (the library's objects form reference cycles)
+    return idents, traces
+
+
 def run_case(case: str):
     """Drive the real library through a (valid) case.  Returns the Run (observations) or None if invalid."""
     p = parse_case(case)
@@ -844,6 +879,8 @@ def run_case(case: str):
     vm, evs, _ = p
     run = Run(vm, evs)
     loop = vloop.new_loop()
+    run.churn = None
+    n_churn = churn_of(case)
     root = logging.getLogger()
     cap = Capture(run, "root")
     old_level, old_raise, old_hook = root.level, logging.raiseExceptions, sys.unraisablehook
@@ -854,6 +891,11 @@ def run_case(case: str):
     loop.set_exception_handler(lambda _l, ctxt: run.notes.setdefault(run.k, []).append(
         "loop-error:" + type(ctxt.get("exception")).__name__))
     try:
+        if n_churn:
+            try:
+                run.churn = loop.run_until_complete(run_churn(n_churn))
+            except BaseException as exc:  # noqa: BLE001
+                run.churn = ([f"!{type(exc).__name__}"], [])
         p0 = Puppet(run, 0)
         run.puppets.append(p0)
         p0.task = loop.create_task(p0.main())
